@@ -94,7 +94,10 @@ class Skeleton:
         self.match_fn = self.fns.get('ParseState::match')
         if self.match_fn is None:
             raise AnalysisBroken('ParseState::match not found (anchor vanished)')
-        self.skel = {q: self.stmt(f['body'], f) for q, f in self.grammar_fns.items()}
+        self.skel = {}
+        for q, f in self.grammar_fns.items():
+            self._alias = {}
+            self.skel[q] = self.stmt(f['body'], f)
         self.alternatives = 0
 
     # events of one expression, in evaluation order
@@ -106,7 +109,7 @@ class Skeleton:
         if k == 'lambda':
             return
         if k == 'cond' or (k == 'bin' and e.get('op') in ('&&', '||')):
-            lc = self.ps.la_cond(e['c'] if k == 'cond' else e)
+            lc = self.lacond(e['c'] if k == 'cond' else e)
             if k == 'cond' and lc is not None:
                 a, b = [], []
                 self.events(e['t'], f, a)
@@ -130,12 +133,51 @@ class Skeleton:
             elif callee.endswith('::push_back') and e.get('obj') is not None and member_path(strip_casts(e['obj']))[1][-1:] == ['errors']:
                 out.append(('error',))
 
+    def lacond(self, e):
+        """la_cond with look-ahead aliases / boolean look-ahead locals of the current function substituted"""
+        return self.ps.la_cond(self.subst_alias(e))
+
+    def subst_alias(self, e, depth=0):
+        if not isinstance(e, dict) or depth > 6:
+            return e
+        al = getattr(self, '_alias', {})
+        if e.get('k') == 'ref' and e.get('d') in al:
+            return self.subst_alias(al[e['d']], depth + 1)
+        out = {}
+        for k, v in e.items():
+            if isinstance(v, dict):
+                out[k] = self.subst_alias(v, depth + 1)
+            elif isinstance(v, list):
+                out[k] = [self.subst_alias(x, depth + 1) if isinstance(x, dict) else x for x in v]
+            else:
+                out[k] = v
+        return out
+
     def stmt(self, s, f):
         if s is None:
             return ('seq', [])
         k = s['k']
         if k == 'block':
-            return ('seq', [self.stmt(c, f) for c in s['s']])
+            out = []
+            saved = dict(getattr(self, '_alias', {}))
+            for c in s['s']:
+                node = self.stmt(c, f)
+                out.append(node)
+                if self.has_grammar_action(node):
+                    self._alias = {}          # a token may have been consumed: remembered look-aheads are stale
+                if c['k'] == 'decl':
+                    for v in c['vars']:
+                        init = strip_casts(v.get('init')) if v.get('init') is not None else None
+                        if init is None:
+                            continue
+                        if init.get('k') == 'call' and (init.get('callee') or '').endswith('::lookahead'):
+                            self._alias = dict(getattr(self, '_alias', {}))
+                            self._alias[v['d']] = init
+                        elif (v.get('cty') or '').replace('const ', '') == 'bool' and self.lacond(init) is not None:
+                            self._alias = dict(getattr(self, '_alias', {}))
+                            self._alias[v['d']] = init
+            self._alias = saved if not any(self.has_grammar_action(n) for n in out) else {}
+            return ('seq', out)
         if k in ('empty',):
             return ('seq', [])
         if k == 'expr':
@@ -156,7 +198,7 @@ class Skeleton:
         if k == 'continue':
             return ('continue',)
         if k == 'if':
-            lc = self.ps.la_cond(s['c'])
+            lc = self.lacond(s['c'])
             pre = []
             self.events(s['c'], f, pre)
             pre = [x for x in pre if x[0] != 'lookahead']
@@ -168,7 +210,7 @@ class Skeleton:
                 return ('seq', pre)
             return ('seq', pre + [('if', frozenset(lc[0]), frozenset(lc[1]), self.stmt(s['t'], f), self.stmt(s.get('e'), f))])
         if k == 'switch':
-            c = strip_casts(s['c'])
+            c = strip_casts(self.subst_alias(s['c']))
             if not (c.get('k') == 'call' and (c.get('callee') or '').endswith('::lookahead')):
                 raise AnalysisBroken('parse.cpp: switch on %s in %s is not a look-ahead switch' % (show(c), f['q']))
             cases = []
@@ -193,7 +235,7 @@ class Skeleton:
             return ('switch', cases)
         if k in ('for', 'while', 'do'):
             cond = s.get('c')
-            lc = self.ps.la_cond(cond) if cond is not None else None
+            lc = self.lacond(cond) if cond is not None else None
             if cond is not None and lc is None and not (cond.get('k') == 'bool' and cond['v']):
                 raise AnalysisBroken('parse.cpp: loop condition %s in %s is not a look-ahead test' % (show(cond), f['q']))
             return ('loop', None if lc is None else (frozenset(lc[0]), frozenset(lc[1])), self.stmt(s['body'], f))
